@@ -1,8 +1,12 @@
 import core, cache_corr
-RULE = "see C05"
-TRUSTED_BASE = []
+RULE = ("random worlds x histories (see C05) with runs cut at the k-th operation (call, read, write before/after effect, modified-time query; "
+        "max_errors 0/1/None, 1 or 3 workers), then the monitors 'looks up to date => equals scratch', repair run, no needless rebuild; "
+        "file-backed stores: a 3-call plan with Json/Text/Pickle/Binary stores, os._exit before/after EVERY file operation of the run (fresh state and after a source update), then the repairing run")
+TRUSTED_BASE = ["harness/cache_corr.py worlds and fault injection", "harness/c11_common.Injector (file-operation counting, os._exit in a forked child)"]
 def run(ctx):
     camp = cache_corr.Campaign(ctx)
     cache_corr.history_campaign(ctx, camp, ctx.n(60, 1200), ctx.n(6, 8))
     camp.eval_model()
     camp.file({"C08"})
+    import c08_files
+    c08_files.run_files(ctx)      # file-backed stores: process death at every file operation, then the repairing run
